@@ -54,6 +54,26 @@ THEOREMS["C08"] = [("Flurry.Props.C08", [
     "Flurry.C08.counter_no_lost_update", "Flurry.C08.absent_not_applied", "Flurry.C08.replaces_what_it_read",
     "Flurry.C08.removal_is_atomic"])]
 
+THEOREMS["C10"] = THEOREMS["C10"] + [("Flurry.Props.C10", ["Flurry.C10." + n for n in "helper_accounting bin_migrated_at_most_once all_bins_migrated_at_publication one_finisher one_publication_per_generation generations_do_not_overlap initiation_only_from_idle quiescent_after_resize resize_completes".split()])]
+
+
+THEOREMS["C15"] = [("Flurry.Props.C15", ["Flurry.C15." + n for n in "handover_hb path_hb relaxed_writes_private publication_points_release reader_loads_acquire read_lock_rmw_acqrel sites_present".split()])]
+
+
+def _thms(ns, names):
+    return ["Flurry.%s.%s" % (ns, n) for n in names.split()]
+
+THEOREMS["C02"] = [("Flurry.Props.C02", _thms("C02", "step_refines len_spec seq_refines seq_refines_from first_key_kept try_insert_present"))]
+THEOREMS["C05"] = [("Flurry.Props.C05", _thms("C05", "iter_agrees iter_agrees_abs wf_reachable wf_reachable_new wf_reachable_collect wf_reachable_clone wf_unfold"))]
+THEOREMS["C13"] = [("Flurry.Props.C13", _thms("C13", "retain_eq_filter retain_force_eq_filter retain_removes_only_rejected retain_capacity"))]
+THEOREMS["C14"] = THEOREMS["C14"] + [("Flurry.Props.C14", _thms("C14", "never_shrinks removal_never_grows threshold_three_quarters grow_only_when grow_only_when_ins grow_only_when_uninit no_growth_below_threshold no_growth_with_room no_growth_with_room_bins no_growth_with_room_hash table_len_pow2 reachable_never_shrinks reachable_removal_never_grows reachable_table_len_pow2"))]
+THEOREMS["C18"] = [("Flurry.Props.C18", _thms("C18", "cip_panic_unchanged cip_panics_iff cip_no_write_before_callback retain_panic_prefix retain_loop_append after_panic_continues cip_panic_absMap"))]
+THEOREMS["C03"] = [("Flurry.Props.C03", _thms("C03", "held_references_valid no_touch_after_free free_waits_for_holders retire_only_after_unlink unlinked_not_acquirable unprotected_guard_is_unsafe publication_needs_guard"))]
+THEOREMS["C04"] = [("Flurry.Props.C04", _thms("C04", "freed_at_most_once freed_only_after_guards freed_was_retired retired_is_eventually_freed refused_insert_changes_nothing"))]
+THEOREMS["C07"] = [("Flurry.Props.C07", _thms("C07", "traverse_frozen yields_each_once terminates quiescent_order"))]
+THEOREMS["C11"] = [("Flurry.Props.C11", _thms("C11", "no_lost_wakeup writer_not_blocked_without_readers never_stuck writer_eventually_enabled parked_writer_woken writer_excludes_tree_readers"))]
+THEOREMS["C12"] = [("Flurry.Props.C12", _thms("C12", "roots_in_closure roots_named reach_closed reader_lock_free roots_present reader_never_blocked tree_readers_exclude_writer"))]
+
 TIERS = {
     "quick": {"seq_cases": 400, "seq_ops": 60, "search_mult": 6, "conc_cases": 1500},
     "thorough": {"seq_cases": 20000, "seq_ops": 160, "search_mult": 3, "conc_cases": 60000},
@@ -134,7 +154,7 @@ def harness_step(R):
     return True
 
 
-def seq_step(R, prop, own_classes=None, seeds=None):
+def seq_step(R, prop, own_classes=None, seeds=None, life=False):
     """run the sequential suite; oracle failures of this property -> failing inputs,
     model disagreements of this property -> broken correspondence (+ extended search)"""
     t = TIERS[R.tier]
@@ -150,9 +170,15 @@ def seq_step(R, prop, own_classes=None, seeds=None):
     benign = 0
     while rounds:
         seed, cases = rounds.pop(0)
-        res = S.run(seed, cases, max_ops=t["seq_ops"])
+        res = S.run(seed, cases, max_ops=t["seq_ops"], life=life)
         if res.get("report") is None:
-            R.add_broken("harness run failed: " + res.get("harness_error", "")[-300:])
+            if res.get("rc", 0) not in (0, 2):
+                where = res.get("crash_at", "?")
+                m = re.search(r"case-seed (\d+)", where)
+                R.add_failing("[crash] the harness process died (exit %s) while running %s: memory corruption or abort inside the implementation" % (res.get("rc"), where),
+                              {"suite": "seq", "how": "%s seq-replay --case-seed %s --max-ops %d" % (C.HARNESS_BIN, m.group(1) if m else "?", t["seq_ops"])})
+            else:
+                R.add_broken("harness run failed: " + res.get("harness_error", "")[-300:])
             break
         rep = res["report"]
         total_cases += rep["cases"]
@@ -198,7 +224,7 @@ def seq_step(R, prop, own_classes=None, seeds=None):
 
 CONC_TAGS = {
     "lin": ["C01"], "cip": ["C08"], "deadlock": ["C11"], "livelock": ["C11"], "read-blocks": ["C12"],
-    "quiescent": ["C05"], "panic": ["C01"], "double-free": ["C03", "C04"], "crash": ["C01", "C03", "C08", "C11", "C12", "C05", "C10", "C13", "C07"],
+    "quiescent": ["C05"], "panic": ["C01", "C18"], "double-free": ["C03", "C04"], "crash": ["C01", "C03", "C08", "C11", "C12", "C05", "C10", "C13", "C07"],
     "uaf": ["C03"], "early-free": ["C03", "C04"], "retire-reachable": ["C03"], "drop": ["C04"], "iter": ["C07"], "retain": ["C13"],
     "resize": ["C10"], "hb": ["C15"],
 }
@@ -215,7 +241,31 @@ def conc_props_of(f):
     return ps
 
 
-def conc_step(R, prop, extra_args=None, cases=None, suite="conc"):
+def conc_step(R, prop, extra_args=None, cases=None, suite="conc", modes=("mixed",), merge=False):
+    prev = dict(R.cov) if merge else None
+    total = None
+    for mode in modes:
+        _conc_step_one(R, prop, (extra_args or []) + ["--mode", mode], (cases or TIERS[R.tier]["conc_cases"]) // len(modes), suite)
+        sc = R.cov.get("scheduled", {})
+        if total is None:
+            total = dict(sc)
+        else:
+            for k, v in sc.items():
+                total[k] = max(total.get(k, 0), v) if k == "hook_sites" else total.get(k, 0) + v
+    R.cov["scheduled"] = total
+    R.cov["scheduled_modes"] = list(modes)
+    R.cov["evaluations"] = total["cases"]
+    R.cov["distinct_nontrivial"] = total["distinct_nontrivial"]
+    if prev is not None:
+        # keep the sequential suite's numbers next to the scheduled ones
+        R.cov["sequential"] = {k: prev.get(k) for k in ("evaluations", "distinct_nontrivial", "cases", "input_distribution", "model_disagreements_this_property")}
+        R.cov["evaluations"] += prev.get("evaluations", 0)
+        R.cov["distinct_nontrivial"] += prev.get("distinct_nontrivial", 0)
+        R.cov["rule"] = prev.get("rule", "") + " || " + R.cov["rule"]
+        R.cov["samples"] = (prev.get("samples") or []) + (R.cov.get("samples") or [])
+
+
+def _conc_step_one(R, prop, extra_args=None, cases=None, suite="conc"):
     """scheduled concurrent suite: failures of this property -> failing inputs; per-key history
     certificates are re-validated by the Lean checker (`Lin.validate`)"""
     t = TIERS[R.tier]
@@ -278,11 +328,13 @@ def conc_step(R, prop, extra_args=None, cases=None, suite="conc"):
 
 def check_C10(R):
     R.trusted = TRUSTED_COMMON + ["64-bit isize (ISIZE_BITS = 64) in the generated constants"]
-    R.assumptions = ["protocol-level theorems (Proto/Resize) are not yet registered: this check decides the arithmetic half and the sequential growth behaviour only"]
+    R.assumptions = ["the structural model of size_ctl (idle / resizing gen cnt) is justified by the stamp theorems of Props/C10Arith.lean",
+                     "PARTIAL embedding: the protocol model is compared with the implementation through the control words at quiescence and the oracles of the scheduled runs (multi-helper resizes), not by a refinement proof"]
     translator_step(R)
     lean_step(R, "C10")
     if harness_step(R):
         seq_step(R, "C10")
+        conc_step(R, "C10", modes=("resize",), merge=True)
 
 
 def check_C14(R):
@@ -555,7 +607,7 @@ def check_C01(R):
     translator_step(R)
     lean_step(R, "C01")
     if harness_step(R):
-        conc_step(R, "C01")
+        conc_step(R, "C01", modes=("mixed", "tree", "resize"))
 
 
 def check_C08(R):
@@ -564,10 +616,115 @@ def check_C08(R):
     translator_step(R)
     lean_step(R, "C08")
     if harness_step(R):
-        conc_step(R, "C08")
+        conc_step(R, "C08", modes=("mixed", "tree", "cip"))
+
+
+SEQ_TRUST = ["the sequential model Flurry/Seq/Model.lean is a hand transcription of src/map.rs; it is compared with the implementation on every answer and on a full structural dump after every mutating operation"]
+
+
+def check_C02(R):
+    R.trusted = TRUSTED_COMMON + SEQ_TRUST
+    R.assumptions = ["BuildHasher is a function of the key (deterministic); Eq/Ord/Hash of the key type are consistent", "clone / equality / set relations / Debug / Index are compared with the reference map and (where the model has them) with the model; they are derived operations in the Lean statement"]
+    translator_step(R)
+    lean_step(R, "C02")
+    if harness_step(R):
+        seq_step(R, "C02")
+
+
+def check_C05(R):
+    R.trusted = TRUSTED_COMMON + SEQ_TRUST
+    R.assumptions = ["PARTIAL for concurrent histories: after scheduled concurrent runs the quiescent state is validated on the implementation (inspector) only; the theorem wf_reachable covers every sequential history"]
+    translator_step(R)
+    lean_step(R, "C05")
+    if harness_step(R):
+        seq_step(R, "C05")
+        conc_step(R, "C05", modes=("mixed", "resize", "tree"), merge=True)
+
+
+def check_C13(R):
+    R.trusted = TRUSTED_COMMON + SEQ_TRUST
+    R.assumptions = ["PARTIAL for interleavings: the conditional removal (pointer comparison under the bin lock) is exercised against concurrent replacement by the scheduled suite; the theorems cover the sequential behaviour and the conditional-removal rule of the model (remove_if_absMap)"]
+    translator_step(R)
+    lean_step(R, "C13")
+    if harness_step(R):
+        seq_step(R, "C13")
+        conc_step(R, "C13", modes=("retain",), merge=True)
+
+
+def check_C18(R):
+    R.trusted = TRUSTED_COMMON + SEQ_TRUST
+    R.assumptions = ["only panics raised by the closures passed to compute_if_present / retain / retain_force are in scope, not panics of the key type's own Eq/Ord/Hash/Clone"]
+    translator_step(R)
+    lean_step(R, "C18")
+    if harness_step(R):
+        seq_step(R, "C18")
+        conc_step(R, "C18", modes=("panic",), merge=True)
+
+
+def check_C03(R):
+    R.trusted = TRUSTED_COMMON + ["seize as the abstract rule 'freed only after every guard active at retirement has been released; an unprotected guard frees at once'",
+                                  "the quarantine allocator of the harness (freed blocks are poisoned and never reused during a case) and the hook addresses"]
+    R.assumptions = ["PARTIAL: the protocol theorems are about Proto/Reclaim; that the implementation's events follow the protocol is checked on recorded event streams (sequential incl. bulk construction, and scheduled concurrent runs), not proved"]
+    translator_step(R)
+    lean_step(R, "C03")
+    if harness_step(R):
+        seq_step(R, "C03", life=True)
+        conc_step(R, "C03", extra_args=["--life", "1"], modes=("mixed", "tree", "resize", "iter"), merge=True, cases=TIERS[R.tier]["conc_cases"] // 2)
+
+
+def check_C04(R):
+    R.trusted = TRUSTED_COMMON + ["the instrumented key/value types count every construction, clone and drop per instance"]
+    R.assumptions = ["PARTIAL: exactly-once destruction of keys/values of the real map is the drop ledger's verdict on explored executions; the theorems are about the reclamation protocol and the sequential model"]
+    translator_step(R)
+    lean_step(R, "C04")
+    if harness_step(R):
+        seq_step(R, "C04", life=True)
+        conc_step(R, "C04", extra_args=["--life", "1"], modes=("mixed", "tree", "resize"), merge=True, cases=TIERS[R.tier]["conc_cases"] // 2)
+
+
+def check_C07(R):
+    R.trusted = TRUSTED_COMMON + ["the traverser model Flurry/Seq/Iter.lean is a hand transcription of src/iter/traverser.rs"]
+    R.assumptions = ["PARTIAL for concurrent mutation: weak consistency during concurrent inserts/removals/resizes is judged on recorded histories (iter oracle), the theorem covers frozen forwarding structures of any depth"]
+    translator_step(R)
+    lean_step(R, "C07")
+    if harness_step(R):
+        conc_step(R, "C07", modes=("iter",))
+
+
+def check_C11(R):
+    R.trusted = TRUSTED_COMMON + ["parking_lot mutexes as atomic lock/unlock; std::thread::park/unpark as a one-token semaphore"]
+    R.assumptions = ["PARTIAL: proved for the tree-bin lock protocol and the resize protocol models; whole-map termination is explored: the scheduler reports deadlock (no enabled unfinished thread) and livelock (no termination under a fair policy within the step budget)"]
+    translator_step(R)
+    lean_step(R, "C11")
+    if harness_step(R):
+        conc_step(R, "C11", modes=("mixed", "tree", "resize", "iter"))
+
+
+def check_C12(R):
+    R.trusted = TRUSTED_COMMON + ["call resolution by method name and arity in extract/src/atomics.rs (an over-approximation of the call graph)"]
+    R.assumptions = ["PARTIAL: boundedness of a read's own steps from an arbitrary reachable state is measured on the implementation (reads run alone with writers suspended at every yield point), not proved"]
+    translator_step(R)
+    lean_step(R, "C12")
+    if harness_step(R):
+        conc_step(R, "C12", modes=("mixed", "tree", "solo"))
+
+
+def check_C15(R):
+    R.trusted = TRUSTED_COMMON + ["the C++11/Rust memory-model fragment of Props/C15.lean (hb = (po ∪ sw)+; release store/RMW -> acquire load/RMW; mutex unlock -> lock) is a definition, not derived",
+                                  "the classification of functions that only touch unpublished objects or run under the tree write lock (privateFn in Props/C15.lean)",
+                                  "seize's protect is a SeqCst load for protected guards"]
+    R.assumptions = ["no weak-memory execution is explored: the scheduler is sequentially consistent; missing edges are detected from the orderings used (vector clocks), not by observing stale data"]
+    translator_step(R)
+    lean_step(R, "C15")
+    if harness_step(R):
+        conc_step(R, "C15", extra_args=["--life", "1"], modes=("mixed", "tree", "resize", "iter"), cases=TIERS[R.tier]["conc_cases"] // 2)
+        R.cov["rule"] += " || C15: vector clocks over the recorded event stream with the orderings actually passed at run time; every cross-thread dereference of an allocation must be ordered after it"
 
 
 CHECKS = {
+    "C15": check_C15,
+    "C02": check_C02, "C05": check_C05, "C13": check_C13, "C18": check_C18, "C03": check_C03, "C04": check_C04,
+    "C07": check_C07, "C11": check_C11, "C12": check_C12,
     "C01": check_C01,
     "C08": check_C08,
     "C16": check_C16,
